@@ -284,8 +284,8 @@ theorem absInv_req (cfg : Cfg) : AbsInv cfg (ReqInv cfg) :=
    fun _ h => h⟩
 
 theorem absInv_sasl (cfg : Cfg) : AbsInv cfg SaslQ := by
-  refine ⟨fun h m => saslQ_move h m, fun e n o w p f k => ?_, fun a h => ⟨h.1, h.2.1, by simp⟩⟩
-  refine ⟨by simp [freshAbs], by simp [freshAbs, isSaslState], ?_⟩
+  refine ⟨fun h m => saslQ_move h m, fun e n o w p f k => ?_, fun a h => ⟨h.1, h.2.1, by simp, h.2.2.2⟩⟩
+  refine ⟨by simp [freshAbs], by simp [freshAbs, isSaslState], ?_, by simp [freshAbs]⟩
   intro k hk hs
   rcases connectKinds_mem hk with rfl | rfl <;> simp [Kind.sasl] at hs
 
